@@ -46,6 +46,11 @@ def expr_of_place(b, pl, depth, seen):
     d = ds[0]
     if d[0] == "call":
         c = d[2]
+        nm = c.path.rsplit("::", 1)[-1]
+        if nm in ("div_ceil", "saturating_add", "saturating_sub", "wrapping_add", "wrapping_sub", "max", "min") and len(c.args) == 2 and ("usize" in c.path or "u64" in c.path or "u32" in c.path or "i64" in c.path or "cmp::Ord" in c.path or "cmp::max" in c.path or "cmp::min" in c.path):
+            a_ = expr_of(b, c.args[0], depth + 1, seen) if c.args[0][0] == "k" else expr_of_place(b, c.args[0][1], depth + 1, seen)
+            c_ = expr_of(b, c.args[1], depth + 1, seen) if c.args[1][0] == "k" else expr_of_place(b, c.args[1][1], depth + 1, seen)
+            return ("arith", {"div_ceil": "ceil/", "saturating_add": "+", "wrapping_add": "+", "saturating_sub": "sat-", "wrapping_sub": "-", "max": "max", "min": "min"}[nm], a_, c_)
         return ("call", c.path, c.bb, tuple(expr_of(b, a, depth + 1, seen) if a[0] == "k" else ("ref", a[1][0]) for a in c.args[:3]))
     rv = d[4]
     k = rv[0]
@@ -113,6 +118,14 @@ def evaluate(e, env):
             return a // c if c else 0
         if o == "%":
             return a % c if c else 0
+        if o == "ceil/":
+            return -(-a // c) if c else 0
+        if o == "sat-":
+            return max(a - c, 0)
+        if o == "max":
+            return max(a, c)
+        if o == "min":
+            return min(a, c)
     if k == "cmp":
         a, c = evaluate(e[2], env), evaluate(e[3], env)
         return {"<": a < c, "<=": a <= c, ">": a > c, ">=": a >= c, "==": a == c, "!=": a != c}[e[1]]
